@@ -197,7 +197,7 @@ def _prob_exps(draw, S, nw, supports, allow_kl):
             ev = sorted(draw(st.sets(st.integers(0, S - 1), min_size=1, max_size=S)))
         pe = np.array([phat[s] for s in ev])
         mean = (pe @ cents[ev]) / pe.sum()
-        kind = draw(st.sampled_from(['box', 'box', 'eq', 'l1', 'half']))
+        kind = draw(st.sampled_from(['box', 'box', 'eq', 'l1', 'half'] + (['l2'] if allow_kl else [])))
         comps = sorted(draw(st.sets(st.integers(0, nw - 1), min_size=1, max_size=nw)))
         e = {'event': ev, 'kind': kind, 'comps': comps}
         if kind == 'box':
@@ -206,7 +206,7 @@ def _prob_exps(draw, S, nw, supports, allow_kl):
         elif kind == 'eq':
             e['comps'] = comps[:1]
             e['val'] = [float(mean[comps[0]])]
-        elif kind == 'l1':
+        elif kind in ('l1', 'l2'):
             e['c'] = [float(mean[j]) for j in comps]
             e['r'] = draw(st.sampled_from([0.5, 1.0]))
         else:
@@ -541,9 +541,9 @@ def build(case):
                     cs += [comp(j) >= lo, comp(j) <= hi]
             elif e['kind'] == 'eq':
                 cs.append(comp(e['comps'][0]) == e['val'][0])
-            elif e['kind'] == 'l1':
+            elif e['kind'] in ('l1', 'l2'):
                 terms = [comp(j) - c for j, c in zip(e['comps'], e['c'])]
-                cs.append(rso.norm(rso.vec(*terms), 1) <= e['r'])
+                cs.append(rso.norm(rso.vec(*terms), 1 if e['kind'] == 'l1' else 2) <= e['r'])
             else:
                 expr = 0
                 for j, g in zip(e['comps'], e['g']):
@@ -652,7 +652,8 @@ def build(case):
 def pick_solver(case):
     from rsome import eco_solver
     ambs = [case] + ([case['amb2']] if case.get('amb2') else []) + [{'supports': [r['fsupp']], 'prob': {'t': 'fixed'}} for r in case['cons'] if r.get('fsupp')]
-    conic = any(p['t'] == 'l2' for a in ambs for s in a['supports'] for p in s['pieces']) or any(a['prob']['t'] in ('kl', 'l2') for a in ambs)
+    conic = any(p['t'] == 'l2' for a in ambs for s in a['supports'] for p in s['pieces']) or any(a['prob']['t'] in ('kl', 'l2') for a in ambs) \
+        or any(e['kind'] == 'l2' for a in ambs for e in a.get('exps', []))
     return (eco_solver, 'conic') if conic else (None, 'lp')
 
 
@@ -776,6 +777,8 @@ def exp_violation(e, mean):
         return float(abs(mj[0] - e['val'][0]))
     if e['kind'] == 'l1':
         return float(np.sum(np.abs(mj - np.array(e['c']))) - e['r'])
+    if e['kind'] == 'l2':
+        return float(np.linalg.norm(mj - np.array(e['c'])) - e['r'])
     return float(np.dot(e['g'], mj) - e['h'])
 
 
@@ -796,7 +799,7 @@ def worst_case(case, atoms, values, sign=1.0, p_fixed=None):
         extra += S
     aux_e = []
     for e in case['exps']:
-        if e['kind'] == 'l1':
+        if e['kind'] in ('l1', 'l2'):      # a 2-norm ball is attacked through the inscribed 1-norm ball (sound, weaker)
             aux_e.append(N + extra)
             extra += len(e['comps'])
         else:
